@@ -326,6 +326,8 @@ def generate(repo: pathlib.Path) -> dict[str, str]:
     for k, v in zip(seeds[0].keys, seeds[0].values):
         _need(ast.unparse(v) == f"_n.NAMESPACES[{k.value!r}]", "update_namespaces: unexpected seed value")
         seed.append(k.value)
+        row = [r for r in rows if r[0] == k.value]
+        _need(len(row) == 1 and not row[0][2], f"update_namespaces: seed namespace {k.value} is versioned or unknown")
     L.append("Definition NS_SEED : list str := [" + "; ".join(g_str(s) for s in seed) + "].")
     return {"ExsConsts.v": "\n".join(L) + "\n"}
 
